@@ -204,3 +204,6 @@ def run(ctx, led):
     from . import watchrules
     run_rule(led, "B7", "WAKE: each watcher loop of the nogood propagator looks at exactly the watchers whose predicate became true (decided on all old/new domain pairs of a 5-value universe)", watchrules.wake, ctx)
     run_rule(led, "B8", "READD: loops that copy nogood watchers back run to the number of watchers", watchrules.readd, ctx)
+    from . import C07 as _C07b
+    run_rule(led, "B9", "a permanent nogood (blocking clause) is stored in its preprocessed form (shared with C07-J10)", _C07b.j10, ctx)
+    run_rule(led, "B10", "every solve starts from exactly the assumptions it was given — the iterator's solves from none (shared with C05-A3)", shared.assumptions_overwritten, ctx)
